@@ -48,7 +48,8 @@ func biasFor(prop, tier string) gBias {
 	case "C06":
 		b.FanIn = true
 		b.PDedup = 60
-		b.PFail = 4
+		b.PFail = 8
+		b.PIgnore = 30 // absorbing callers keep other branches alive after a failure next to a shared task
 		b.VEnvSub = true
 		b.PLoop = 20
 	case "C07":
